@@ -472,6 +472,15 @@ def rule_shared2(prog, res):
     res.share('R6', 'primitive text codecs keep fractions, signs and '
               'lexical spaces (C08-R3/R4/R5)', 'C08', c08.rule_r8, prog,
               Result)
+    res.share('R6', 'primitive text codecs keep fractions, signs and '
+              'lexical spaces (C08-R3/R4/R5)', 'C08', c08.rule_r11, prog,
+              Result)
+    res.share('R6', 'primitive text codecs keep fractions, signs and '
+              'lexical spaces (C08-R3/R4/R5)', 'C08', c08.rule_r13, prog,
+              Result)
+    res.share('R6', 'primitive text codecs keep fractions, signs and '
+              'lexical spaces (C08-R3/R4/R5)', 'C08', c08.rule_r14, prog,
+              Result)
     res.share('R7', 'field evolution invalidates the flattened type info '
               'that reader and writer share (C15-R2)', 'C15', c15.rule_r2,
               prog, Result)
